@@ -43,6 +43,9 @@ def build(cfg, jit=None):
     if cfg["gens"]:
         for b, p, vm in GENS:
             pp.create_gen(net, b, p_mw=p * fp, vm_pu=vm, name="gen %d" % b)
+    elif cfg.get("ghost"):
+        for b, p, vm in GENS:                                # switched-off units; set point far from the solved voltage
+            pp.create_gen(net, b, p_mw=p * fp, vm_pu=vm + 0.04, name="gen %d" % b, in_service=False)
     return net
 
 
@@ -168,6 +171,7 @@ def run(tier, seed, replay=None):
     model_out = {}
     if replay:
         jobs = [replay["case"]["job"]]
+        jobs[0]["cfg"].setdefault("ghost", False)          # replay files written before the field existed
         states = trans = n_model = 1
     else:
         r = model(tier)
